@@ -13,7 +13,7 @@ SCR="$(mktemp -d /tmp/pkgsim-mut.XXXXXX)"
 cleanup() { [ "${KEEP:-0}" = 1 ] || rm -rf "$SCR"; }
 trap cleanup EXIT
 mkdir -p "$SCR/repo" "$SCR/crate" "$SCR/root"
-rsync -a --exclude target --exclude .git /repo/ "$SCR/repo/"
+rsync -a --exclude target --exclude .git "${MUT_REPO:-/repo}/" "$SCR/repo/"
 if [ "$PATCH" != "/dev/null" ]; then
     if ! (cd "$SCR/repo" && patch -p1 --quiet < "$PATCH"); then
         echo "mutant.sh: patch does not apply" >&2; exit 3
